@@ -28,3 +28,22 @@ Example C11_example_nontrivial :
               s_exceptLines := [2%nat]; s_exceptModes := []; s_exceptAgencies := []; s_exceptNodes := [] |} in
   length (cs_fwd (conn_set ex_data s)) = 2%nat /\ length (d_trips (delete_excluded ex_data s)) = 1%nat.
 Proof. vm_compute. auto. Qed.
+
+(* ---- THE FULL STATEMENT: the whole answers are EQUAL (route, alternatives, accessibility map; every field, not only
+   status/reason/times) — the calculation reads the dataset only through the connection set and the data of enabled
+   trips; the rewrite loop's smaller fuel on the reduced dataset still suffices (Proofs/DeleteEquiv.v) ---- *)
+From TrV Require Import Proofs.DeleteEquiv.
+Theorem C11_full_theorem : C11_full_statement.
+Proof.
+  intros d s p acc egr (Hwf & _ & Htab & Hp & _).
+  destruct (C11_full d s p acc egr Hwf Htab Hp) as (H1 & _ & H3).
+  split; [exact H1|exact H3].
+Qed.
+Print Assumptions C11_full_theorem.
+
+Theorem C11_alternatives_equal : forall d s p acc egr,
+  wf_data_b d = true -> wf_tables_b d p acc egr = true -> wf_params_b p = true ->
+  alternatives d (conn_set d s) p acc egr =
+  alternatives (delete_excluded d s) (conn_set (delete_excluded d s) (all_inclusive d s)) p acc egr.
+Proof. intros d s p acc egr H1 H2 H3. exact (proj1 (proj2 (C11_full d s p acc egr H1 H2 H3))). Qed.
+Print Assumptions C11_alternatives_equal.
